@@ -65,7 +65,7 @@ contract(
 )
 
 contract(
-    TS + "::TaskScenario.scheduleContainer", props=["C10"],
+    TS + "::TaskScenario.scheduleContainer", props=["C10", "C11"],
     params={"self": Ref("TaskScenario")},
     requires=[("tree", "forall(k, 0, len(self.property.children), self.property.children[k] != self.property)"),
               ("data", "0 <= self.scenarioIdx and forall(k, 0, len(self.property.children), "
